@@ -18,8 +18,8 @@ from .core.loader import Repo, AnchorError, Undecided, DEFAULT_ROOT
 from .core import report
 from .core.report import Ctx
 
-CLAIMED = ["C01", "C02", "C03", "C04", "C05", "C06", "C07", "C08", "C09", "C10", "C14", "C17",
-           "C24", "C26", "C27", "C34", "C36", "C38", "C39", "C40", "C43", "C45", "C46", "C47"]
+CLAIMED = sorted(f[:-3].upper() for f in os.listdir(os.path.join(os.path.dirname(os.path.abspath(__file__)), "rules"))
+                 if f.startswith("c") and f.endswith(".py") and f[1:-3].isdigit())
 
 
 def load_rule(prop: str):
